@@ -161,6 +161,22 @@ def check(spec, ctx):
     err = gpcheck.diff_multisets(inter_multiset(re2_inter), inter_multiset(built_inter))
     if err:
         raise Violation("reread_from_itp:interactions", err)
+    # the same reader with a force-field object that already knows a molecule of this name (an older file
+    # read before): what the reader returns is still the content of the file it is given
+    (ctx.dir / "older.itp").write_text("[ moleculetype ]\nmol 1\n[ atoms ]\n1 T1 1 OLD O1 1 0.0 72.0\n")
+    try:
+        ff3 = vermouth.forcefield.ForceField("y")
+        MetaMolecule.from_itp(ff3, ctx.dir / "older.itp", "mol")
+        meta3 = MetaMolecule.from_itp(ff3, ctx.dir / "out.itp", "mol")
+    except Exception as err:
+        raise crash("reread:from_itp_known_name", err)
+    re3_atoms, re3_inter = gpcheck.molecule_tables(meta3.molecule)
+    err = gpcheck.same_atoms(re3_atoms, built_atoms)
+    if err:
+        raise Violation("reread_from_itp_known_name:atoms", err)
+    err = gpcheck.diff_multisets(inter_multiset(re3_inter), inter_multiset(built_inter))
+    if err:
+        raise Violation("reread_from_itp_known_name:interactions", err)
 
     # (c) residue graph
     requested_nodes = {(n["resid"], n["resname"]) for n in spec["graph"]["nodes"]}
